@@ -8,8 +8,23 @@ S_DOM = ['', 'a', 'B', 'b', 'ab', 'a"b', 'a\\b', 'a\nb', 'Ã©', '\U0001F600', 'ï¿
 M_DOM = [True, False, 0, 1, 2, 1.0, 0.5]
 X_DOM = [None, None, 0, 1, 2]
 L_DOM = [[], [1], [1, 2], [2], [1, 'a'], [[1]], [1.0, 2]]
-CUSTOM_IDS = ['a', 'b', 'x"y', 'Ã©', 'k\\', 'id with space', '0123456789abcdef01234567', '1', '2', '3', '5', '100', '007',
-              '-5', '+3', 'A', 'a:b', '']
+HEX = 'deadbeef00112233aabbccdd'
+# explicit ids that look like the ids a driver generates, or like its key syntax, in several spellings
+OID_LIKE = [HEX, HEX.upper(), 'DeadBeef00112233aabbccDD', HEX[:23], HEX + '0', HEX[:23] + 'g', '0123456789abcdef01234567',
+            '0123456789ABCDEF01234567', 'abcdefabcdef', '0' * 24, 'f' * 24, 'F' * 24]
+COUNTER_LIKE = ['1', '01', '1.0', ' 1', '1 ', '+1', '2', '02', '3', '5', '9', '10', '100', '007', '-5', '+3', '0', '-0', '1e1']
+CASE_LIKE = ['a', 'A', 'abc', 'ABC', 'Abc', 'b', 'Ã©', 'Ã‰']
+KEY_LIKE = ['a:b', 'a.b', 'a-b', 'c0:a', 'c1:a', ':', 'a:', ':a', '-id-set', 'c0-id-set', '-id-sequence', 'a:b:c', '$a', 'a b', '']
+CUSTOM_IDS = (['x"y', 'k\\', 'id with space', 'a\nb'] + OID_LIKE + COUNTER_LIKE + CASE_LIKE + KEY_LIKE)
+ID_FAMILIES = [OID_LIKE, COUNTER_LIKE, CASE_LIKE + ['x"y', 'k\\'], KEY_LIKE, CUSTOM_IDS, CUSTOM_IDS]
+
+
+def other_spelling(rng, i):
+    """the same id written differently: a *different* id for the reference store"""
+    cands = [i.swapcase(), i.lower(), i.upper(), i.strip(), i.lstrip('0') or '0', '0' + i, i + ' ', ' ' + i, i + '\n',
+             i.replace(':', '-'), i.replace('.', ':'), i[:-1], i + i[-1:]]
+    cands = [c for c in cands if c != i]
+    return rng.choice(cands) if cands else i + 'x'
 
 
 def rand_str(rng):
@@ -127,10 +142,15 @@ def rand_operand(rng, field, st):
 def rand_idref(rng, st, coll):
     known = st['ids'][coll]
     r = rng.random()
-    if known and r < 0.8:
+    if known and r < 0.65:
         return rng.choice(known)
-    if r < 0.9:
-        return rng.choice(CUSTOM_IDS)
+    if known and r < 0.82:
+        k = rng.choice(known)
+        if isinstance(k, str):
+            return other_spelling(rng, k)
+        return k
+    if r < 0.92:
+        return rng.choice(st.get('customs') or CUSTOM_IDS)
     return GenRef(9999)
 
 
@@ -182,7 +202,8 @@ def rand_filter(rng, st, coll, empty=0.12):
 def gen_ops(rng, tier):
     nops = rng.randint(3, 30 if tier == 'quick' else 60)
     st = {'ids': {c: [] for c in COLLS}, 'recs': {c: [] for c in COLLS}, 'tag': 0, 'numeric': rng.random() < 0.45}
-    customs = [c for c in CUSTOM_IDS if c.lstrip('+-').isdigit()] if st['numeric'] else CUSTOM_IDS
+    customs = [c for c in COUNTER_LIKE if c.lstrip('+-').isdigit()] if st['numeric'] else rng.choice(ID_FAMILIES)
+    st['customs'] = customs
     r0 = rng.random()
     colls = COLLS if r0 < 0.25 else rng.sample(COLLS, 2) if r0 < 0.45 else [rng.choice(COLLS)]
     ops = []
@@ -194,8 +215,12 @@ def gen_ops(rng, tier):
             rec = rand_record(rng, coll)
             st['tag'] += 1
             tag = st['tag']
-            if rng.random() < 0.45:
+            if rng.random() < 0.5:
                 cid = rng.choice(customs)
+                if rng.random() < 0.15 and st['ids'][coll] and not st['numeric']:
+                    prev = rng.choice(st['ids'][coll])
+                    if isinstance(prev, str):
+                        cid = other_spelling(rng, prev)
                 rec['id'] = cid
                 if rng.random() < 0.5:     # id first, as callers usually write it
                     rec = {'id': cid, **{k: v for k, v in rec.items() if k != 'id'}}
@@ -246,6 +271,12 @@ def gen_ops(rng, tier):
 
 
 def gen_case(rng, tier):
+    if rng.random() < 0.05:
+        ids = [rng.choice(CUSTOM_IDS) for _ in range(rng.choice([1, 3, 6]))]
+        ids += [other_spelling(rng, i) for i in ids if rng.random() < 0.5]
+        ids += [''.join(rng.choice('0123456789abcdefABCDEFg\n') for _ in range(rng.choice([23, 24, 24, 24, 25])))
+                for _ in range(rng.choice([0, 1, 2]))]
+        return {'kind': 'ids', 'ids': ids}
     if rng.random() < 0.12:
         return {'kind': 'codec', 'values': [enc(rand_value(rng)) for _ in range(rng.choice([1, 2, 4, 6]))]}
     return {'ops': gen_ops(rng, tier), 'pretty': rng.random() < 0.3, 'backup': rng.random() < 0.7}
@@ -277,6 +308,12 @@ def _simpler_values(v):
 
 
 def shrink(case):
+    if case.get('kind') == 'ids':
+        ids = case['ids']
+        for i in range(len(ids)):
+            if len(ids) > 1:
+                yield dict(case, ids=ids[:i] + ids[i + 1:])
+        return
     if case.get('kind') == 'codec':
         vals = case['values']
         for i in range(len(vals)):
